@@ -405,7 +405,7 @@ def dirStatus [DecidableEq κ] (ctx : Ctx κ) (s : Store κ) :
           match untrackedStatuses ctx s fd untracked with
           | .error e => .error e
           | .ok un =>
-            .ok { base with cm := tracked.all (·.cm) && untracked.isEmpty,
+            .ok { base with cm := q.has && q.inCache && tracked.all (·.cm) && untracked.isEmpty,
                             children := tracked ++ un }
     | _ => .ok base
 
